@@ -33,6 +33,15 @@ func (lc *LeastConnectionsStrategy) NextBackend(r *http.Request) *Backend {
 
 	// Find the backend with the least active connections
 	for _, backend := range lc.backends {
+		// Only consider healthy backends: an idle ejected backend must not win the
+		// comparison over and over while another backend can serve
+		backend.Mutex.RLock()
+		healthy := backend.IsHealthy
+		backend.Mutex.RUnlock()
+		if !healthy {
+			continue
+		}
+
 		connections := backend.GetActiveConnections()
 		if connections < minConnections {
 			minConnections = connections
